@@ -2,8 +2,63 @@
 From Coq Require Import ZArith NArith List Bool Lia Arith ZifyBool ZifyN ZifyNat.
 Import ListNotations.
 Require Import SR.Base.Res SR.Spec.Dde SR.Model.Structure.
+Require Import SR.Gen.StructureParams.
 Open Scope nat_scope.
 Ltac Zify.zify_post_hook ::= Z.to_euclidean_division_equations.
+
+(* ================================================================= what the source says now (T1)
+
+   Model/Structure.v is parameterised by Gen/StructureParams.v, which harness/t1_text.py regenerates from
+   DDE.__init__ and structure() of src/stingray/cobol_parser.py on every run.  The lemmas of this section
+   state in closed form what the model is for the values the proofs below were written for; each is
+   proved by computation, so it stops compiling when the source changes the FILLER literals, the
+   format FILLER-n of the generated names, the increment, the level that resets the counter, the reset at
+   the start of structure(), the set of skipped levels or the comparison of the pop loop.  Everything
+   after this section uses these lemmas, never the parameters. *)
+
+(* name = clauses.get(name) or clauses.get(filler) or the literal FILLER; that literal is what is numbered *)
+Lemma naming_literals : default_name = FILLER /\ filler_name = FILLER.
+Proof. split; reflexivity. Qed.
+
+Lemma dde_name_eq : forall e,
+  dde_name e = match ename e with
+               | Some n => n
+               | None => match efill e with Some f => f | None => FILLER end
+               end.
+Proof. reflexivity. Qed.
+
+Lemma is_filler_eq : forall e, is_filler e = str_eqb (dde_name e) FILLER.
+Proof. reflexivity. Qed.
+
+(* unique_name = FILLER-n *)
+Lemma gen_name_eq : forall n, gen_name n = FILLER_dash ++ dec n.
+Proof. intro n. unfold gen_name. change gen_suffix with (@nil N). rewrite app_nil_r. reflexivity. Qed.
+
+(* the counter is set to zero by a level-01 entry, and by nothing else, before it is advanced by one *)
+Lemma is_reset_eq : forall l, is_reset l = lvl_eqb l L01.
+Proof. intro l. unfold is_reset. change reset_levels with [L01]. cbn [existsb]. apply orb_false_r. Qed.
+
+Lemma mk_ddes_eq : forall c e r,
+  mk_ddes c (e :: r) =
+  let c0 := if lvl_eqb (elv e) L01 then 0%N else c in
+  if is_filler e then {| de := e; du := gen_name (c0 + 1) |} :: mk_ddes (c0 + 1) r
+  else {| de := e; du := dde_name e |} :: mk_ddes c0 r.
+Proof. intros c e r. cbn [mk_ddes]. rewrite is_reset_eq. reflexivity. Qed.
+
+(* structure() starts the numbering from zero whatever the counter was: [structure l] is [mk_ddes 0 l] *)
+Lemma structure_resets : reset_at_start = true.
+Proof. reflexivity. Qed.
+
+(* the loop skips the levels 66, 77 and 88 *)
+Lemma skipped_eq : forall d, skipped d = lvl_eqb (dlv d) L66 || lvl_eqb (dlv d) L77 || lvl_eqb (dlv d) L88.
+Proof.
+  intro d. unfold skipped. change skipped_levels with [L66; L77; L88]. cbn [existsb].
+  rewrite orb_false_r, orb_assoc. reflexivity.
+Qed.
+
+(* the pop loop compares node.level <= bottom.level *)
+Lemma pop_test_eq : forall a b, pop_test a b = lvl_leb a b.
+Proof. reflexivity. Qed.
 
 (* ================================================================= strings, decimal numerals *)
 
@@ -38,7 +93,7 @@ Proof.
 Qed.
 
 Lemma gen_name_inj : forall n m, gen_name n = gen_name m -> n = m.
-Proof. intros n m H. unfold gen_name in H. apply app_inv_head in H. apply dec_inj. exact H. Qed.
+Proof. intros n m H. rewrite !gen_name_eq in H. apply app_inv_head in H. apply dec_inj. exact H. Qed.
 
 (* ================================================================= naming *)
 
@@ -50,7 +105,7 @@ Lemma mk_ddes_cons_no01 : forall c e r, no01 e ->
   mk_ddes c (e :: r) =
   if is_filler e then {| de := e; du := gen_name (c + 1) |} :: mk_ddes (c + 1) r
   else {| de := e; du := dde_name e |} :: mk_ddes c r.
-Proof. intros c e r H. cbn [mk_ddes]. unfold no01 in H. rewrite H. reflexivity. Qed.
+Proof. intros c e r H. rewrite mk_ddes_eq. unfold no01 in H. rewrite H. reflexivity. Qed.
 
 Lemma users_cons : forall e r,
   users (e :: r) = if is_filler e then users r else dde_name e :: users r.
@@ -104,7 +159,7 @@ Lemma names_distinct : forall (c : N) (l : list entry),
 Proof.
   intros c [|e r] Hl Hnd Hng.
   - constructor.
-  - cbn [tl] in Hl. cbn [mk_ddes]. rewrite users_cons in Hnd, Hng.
+  - cbn [tl] in Hl. rewrite mk_ddes_eq. cbv zeta. rewrite users_cons in Hnd, Hng.
     set (c0 := if lvl_eqb (elv e) L01 then 0%N else c).
     destruct (is_filler e).
     + cbn [map du]. constructor.
@@ -121,14 +176,15 @@ Proof.
 Qed.
 
 Lemma mk_ddes_01 : forall c e r, lvl_eqb (elv e) L01 = true -> mk_ddes c (e :: r) = mk_ddes 0 (e :: r).
-Proof. intros c e r H. cbn [mk_ddes]. rewrite H. reflexivity. Qed.
+Proof. intros c e r H. rewrite !mk_ddes_eq. rewrite H. reflexivity. Qed.
 
 Lemma mk_ddes_app_01 : forall l1 c e l2, lvl_eqb (elv e) L01 = true ->
   mk_ddes c (l1 ++ e :: l2) = mk_ddes c l1 ++ mk_ddes 0 (e :: l2).
 Proof.
   induction l1 as [|x l1 IH]; intros c e l2 He.
-  - cbn [app mk_ddes]. rewrite He. reflexivity.
-  - cbn [app mk_ddes]. destruct (is_filler x); cbn [app]; rewrite IH by exact He; reflexivity.
+  - cbn [app]. rewrite (mk_ddes_eq c e l2), (mk_ddes_eq 0 e l2). rewrite He. reflexivity.
+  - cbn [app]. rewrite (mk_ddes_eq c x (l1 ++ e :: l2)), (mk_ddes_eq c x l1). cbv zeta.
+    destruct (is_filler x); cbn [app]; rewrite IH by exact He; reflexivity.
 Qed.
 
 Lemma mk_ddes_de : forall l c, map de (mk_ddes c l) = l.
@@ -172,7 +228,7 @@ Qed.
 
 Lemma keep_num : forall d, two_digits (dlv d) = true -> keep d = kept_level (lvl_num (dlv d)).
 Proof.
-  intros d H. unfold keep, skipped, kept_level, L66, L77, L88.
+  intros d H. unfold keep. rewrite skipped_eq. unfold kept_level, L66, L77, L88.
   rewrite !lvl_eqb_num by (exact H || reflexivity). reflexivity.
 Qed.
 
@@ -278,11 +334,11 @@ Lemma pop_flat : forall x r c n0,
   end.
 Proof.
   intros x. induction r as [|p o IH]; intros c n0.
-  - cbn [pop]. destruct (lvl_leb x (dlv (fd c))).
+  - cbn [pop]. rewrite pop_test_eq. destruct (lvl_leb x (dlv (fd c))).
     + rewrite preorder_close, parents_close. cbn [sflat spars app length].
       rewrite Nat.add_0_r. split; reflexivity.
     + split; reflexivity.
-  - cbn [pop]. destruct (lvl_leb x (dlv (fd c))).
+  - cbn [pop]. rewrite pop_test_eq. destruct (lvl_leb x (dlv (fd c))).
     + specialize (IH (attach (close c) p) n0).
       destruct (pop x (attach (close c) p) o) as [[b r'] | t];
         rewrite sflat_attach, spars_attach in IH; exact IH.
@@ -358,7 +414,7 @@ Lemma pop_ns : forall x rf r c,
   end.
 Proof.
   intros x rf. induction r as [|p o IH]; intros c Hk Hc.
-  - cbn [pop]. destruct (lvl_leb x (dlv (fd c))) eqn:E.
+  - cbn [pop]. rewrite pop_test_eq. destruct (lvl_leb x (dlv (fd c))) eqn:E.
     + cbn [chain_ok] in Hc. cbn [sflat app]. unfold fflat.
       assert (Hall : lv_ge x (rf ++ fd c :: preorder_f (fkids c))).
       { apply lv_ge_app. eapply lv_ge_trans; eassumption. constructor; assumption. }
@@ -369,7 +425,7 @@ Proof.
       rewrite rev_app_distr. cbn [rev]. rewrite <- !app_assoc.
       rewrite ns_skip by (apply lv_ge_rev; exact Hk). cbn [app ns]. rewrite E.
       rewrite rev_length, app_nil_r. reflexivity.
-  - cbn [pop]. destruct (lvl_leb x (dlv (fd c))) eqn:E.
+  - cbn [pop]. rewrite pop_test_eq. destruct (lvl_leb x (dlv (fd c))) eqn:E.
     + cbn [chain_ok] in Hc. destruct Hc as [Hlt [Hge Hc]].
       assert (Hk' : lv_ge x (preorder_f (fkids (attach (close c) p)))).
       { cbn [attach fkids]. rewrite preorder_f_app. apply lv_ge_app.
